@@ -120,11 +120,13 @@ func Run(ctx *core.Ctx) {
 		"error, DIRECT and several entries per target host, --credentials has exact/*:port/host:*/*:* entries for the host:port of all those proxies, and every host class is " +
 		"asked for with each request kind. Kind startfail: one thing in the configuration makes the " +
 		"start-up fail after the values were read (mismatching or non-PEM key material, unparsable PAC, a rejected host/port/scheme after the user:password, " +
-		"duplicate credentials, occupied port). Non-trivial = at least one secret-bearing flag is set and the process served the requests / exited with status 1; " +
+		"duplicate credentials, occupied port, an inline data: value written in a form the decoder refuses or that is not taken for an inline value). " +
+		"The TEXTUAL FORM of every inline data: value is drawn per value (layout.go): on one line, wrapped at 64/76 characters with LF or CR LF, with a final line break, one break, a " +
+		"leading break; in a config file either as an escaped string literal or verbatim in a YAML block scalar / TOML multi-line string; Ed25519 or RSA-4096 material. Non-trivial = at least one secret-bearing flag is set and the process served the requests / exited with status 1; " +
 		"distinct = distinct configurations")
 	ctx.Assume("C19: the theorems cover the configuration dump (start-up 'configuration:' lines, /configz), the 'using upstream proxy' line, the cert/key attributes of the debug record 'loading TLS certificate' and the two error texts that render a flag value (rejected flag value, --cacert-file without certificate) and the outcome of pacProxy on the string a PAC script returned (error texts, credentials merged into the selected proxy URL); every other log line, the request log and the error responses are covered by the search on the running binary only")
 	ctx.Assume("C19: the log lines the proxy writes about exchanges that fail because of a fault of the upstream proxy / origin are searched like the start-up log, except the header dumps of --log-http errors for 5xx exchanges (the property covers request log lines of successful exchanges)")
-	ctx.Assume("C19: a secret is searched literally, as base64 (std/url, padded/raw) of the password and of user:password, percent-encoded (query, path, userinfo, all bytes), as Go/JSON string literal, hex, and for data: payloads as fragments and decoded PEM lines; other forms are caught only by the diff of two runs that differ in the secrets alone")
+	ctx.Assume("C19: a secret is searched literally, as base64 (std/url, padded/raw) of the password and of user:password, percent-encoded (query, path, userinfo, all bytes), as Go/JSON string literal, hex, and for data: payloads as written, as fragments, as decoded PEM lines and as ANY window of 24 characters of the base64 text or of the PEM body after removing white space, control characters, their escapes and percent triples from the output; other forms are caught only by the diff of two runs that differ in the secrets alone")
 	ctx.Assume("C19: flag table extracted syntactically (go/ast) from bind/*.go and command/run/*.go of the tree under verification: constructor name and presence of a redactor argument")
 	defer cleanup(ctx)
 	if fwdBinary(ctx) == "" {
